@@ -27,9 +27,9 @@
 (*   ofields: the observed fields                                          *)
 (***************************************************************************)
 EXTENDS Replace
-   \* the state variables cfg, meta (and the unused step counter n) and the pure operators Meta,
-   \* ReplaceMeta, View of Replace.tla are used directly (an INSTANCE with substitutions would make
-   \* TLC re-read the JSON input on every use); ReplaceTrace.cfg sets Bug = "none", HistOnly = FALSE
+   \* the state variables cfg, arg, meta (and the unused scenario index sc and step counter n) and the pure operators Meta,
+   \* ReplaceMeta, NextCfg, NextArg, View of Replace.tla are used directly (an INSTANCE with substitutions would make
+   \* TLC re-read the JSON input on every use); ReplaceTrace.cfg sets Bug = "none", HistOnly = FALSE; Input.scenarios and Input.bugs are empty
 
 Traces  == Input.traces
 Table   == Input.table
@@ -37,17 +37,32 @@ GTable  == Input.gtable
 OFields == Input.ofields                 \* sequence: fixes the order in which clauses are reported
 
 VARIABLES tid, l, err, fin
-tvars == <<tid, l, err, fin, cfg, meta, n>>
+tvars == <<tid, l, err, fin, sc, cfg, arg, meta, n>>
 
 T  == Traces[tid]
 Ev == T.ev[l]
 
 InitCfgOf(t) == [p \in AllPos |-> t.init[p]]
 
-TInit == /\ tid \in 1 .. Len(Traces) /\ n = 0
+TInit == /\ tid \in 1 .. Len(Traces) /\ n = 0 /\ sc = 0
         /\ l = 1 /\ err = "ok" /\ fin = FALSE
         /\ cfg = InitCfgOf(Traces[tid])
+        /\ arg = [q \in NestedPos |-> Traces[tid].init[q]]
         /\ meta = Meta(InitCfgOf(Traces[tid]))
+
+\* The derived views (nets and their writers are a fixed-point computation) of every configuration
+\* at which some trace carries an observation: a constant, evaluated once per TLC run.  It is only
+\* used for a step after which the specification's meta equals Meta(cfg) - which ReplaceEv checks
+\* first for every step of every trace.
+CfgPath(t) ==       \* <<cfg, arg, set of configurations observed so far>> folded over the events
+    FoldLeft(LAMBDA a, e :
+                 IF e.k \notin {"Replace", "ReplaceWithObj"} \/ e.pos \notin AllPos \/ e.cls \notin Classes
+                 THEN <<a[1], a[2], IF e.has THEN a[3] \cup {a[1]} ELSE a[3]>>
+                 ELSE LET g2 == NextCfg(a[1], a[2], e.k, e.pos, e.cls)
+                      IN  <<g2, NextArg(a[1], a[2], e.k, e.pos), IF e.has THEN a[3] \cup {g2} ELSE a[3]>>,
+             <<InitCfgOf(t), [q \in NestedPos |-> t.init[q]], {}>>, t.ev)
+ObservedCfgs == UNION {CfgPath(Traces[i])[3] : i \in 1 .. Len(Traces)}
+ViewTab      == [g \in ObservedCfgs |-> View(Meta(g))]
 
 ---------------------------------------------------------------------------
 \* comparison of an observation with the specification's state
@@ -79,35 +94,37 @@ First(bad) == LET i == CHOOSE j \in DOMAIN AllClauses :
 
 ---------------------------------------------------------------------------
 
-Fail(c) == err' = c /\ UNCHANGED <<tid, l, fin, cfg, meta, n>>
+Fail(c) == err' = c /\ UNCHANGED <<tid, l, fin, sc, cfg, arg, meta, n>>
 
 ReplaceEv ==
     /\ Ev.k \in {"Replace", "ReplaceWithObj"}
     /\ IF Ev.pos \notin AllPos \/ Ev.cls \notin Classes THEN Fail("bad-trace-event")
-       ELSE LET m2  == ReplaceMeta(meta, cfg, Ev.pos, Ev.cls)
-                g2  == [cfg EXCEPT ![Ev.pos] = Ev.cls]
-                bad == IF Ev.has THEN Bad(View(m2), Ev.obs) ELSE {}
+       ELSE IF Ev.cls \notin FullPaletteOf(Ev.pos) THEN Fail("bad-trace-event")
+       ELSE LET g2  == NextCfg(cfg, arg, Ev.k, Ev.pos, Ev.cls)
+                m2  == ReplaceMeta(meta, cfg, g2, Ev.pos)
             IN  IF m2 # Meta(g2) THEN Fail("model-history-dependent")
-                ELSE IF bad # {}
-                THEN /\ \A x \in bad : PrintT(<<"R", tid, l, x[1], x[2]>>)
-                     /\ Fail(First(bad))
-                ELSE /\ meta' = m2 /\ cfg' = g2
-                     /\ l' = l + 1 /\ UNCHANGED <<tid, err, fin, n>>
+                ELSE LET bad == IF Ev.has THEN Bad(ViewTab[g2], Ev.obs) ELSE {}
+                     IN  IF bad # {}
+                         THEN /\ \A x \in bad : PrintT(<<"R", tid, l, x[1], x[2]>>)
+                              /\ Fail(First(bad))
+                         ELSE /\ meta' = m2 /\ cfg' = g2
+                              /\ arg' = NextArg(cfg, arg, Ev.k, Ev.pos)
+                              /\ l' = l + 1 /\ UNCHANGED <<tid, err, fin, sc, n>>
 
 \* observation of the freshly elaborated design, before any replacement
 ObserveEv ==
     /\ Ev.k = "Observe"
-    /\ LET bad == Bad(View(meta), Ev.obs)
+    /\ LET bad == Bad(ViewTab[cfg], Ev.obs)       \* meta = Meta(cfg) holds in every state reached
        IN  IF bad # {}
            THEN /\ \A x \in bad : PrintT(<<"R", tid, l, x[1], x[2]>>)
                 /\ Fail(First(bad))
-           ELSE l' = l + 1 /\ UNCHANGED <<tid, err, fin, cfg, meta, n>>
+           ELSE l' = l + 1 /\ UNCHANGED <<tid, err, fin, sc, cfg, arg, meta, n>>
 
 Other == /\ Ev.k \notin {"Replace", "ReplaceWithObj", "Observe"} /\ Fail("unknown-event")
 
 Finish == /\ ~fin /\ (err # "ok" \/ l > Len(T.ev))
           /\ PrintT(<<"V", tid, err, l>>)
-          /\ fin' = TRUE /\ UNCHANGED <<tid, l, err, cfg, meta, n>>
+          /\ fin' = TRUE /\ UNCHANGED <<tid, l, err, sc, cfg, arg, meta, n>>
 
 TNext == \/ /\ ~fin /\ err = "ok" /\ l <= Len(T.ev)
             /\ (ReplaceEv \/ ObserveEv \/ Other)
